@@ -110,11 +110,13 @@ func (r *Run) u32() uint32 {
 }
 
 func (r *Run) blob(max int) []byte {
-	switch r.Rng.Intn(6) {
+	switch r.Rng.Intn(8) {
 	case 0:
 		return []byte{}
 	case 1:
 		return r.Bytes(1)
+	case 2: // lengths around the limits people write down (63/64, 127/128/130, 255/256, ...)
+		return r.Bytes(r.Pick(62, 63, 64, 65, 122, 123, 124, 125, 126, 127, 128, 129, 130, 131, 253, 254, 255, 256, 257, 300, 1000))
 	}
 	return r.Bytes(r.Rng.Intn(max + 1))
 }
@@ -122,9 +124,38 @@ func (r *Run) blob(max int) []byte {
 func (r *Run) validNames() ([]string, []byte) {
 	var names []string
 	var wire []byte
-	for k := r.Rng.Intn(4); k > 0; k-- {
+	nn := r.Rng.Intn(4)
+	if r.Rng.Intn(8) == 0 { // one name at or just below the 253-octet limit
+		nn = 1
+	}
+	for k := nn; k > 0; k-- {
 		var labs []string
 		total := 0
+		if nn == 1 && k == 1 && r.Rng.Intn(2) == 0 {
+			want := r.Pick(250, 251, 252, 253, 253)
+			for total < want {
+				n := minInt(63, want-total)
+				if want-total-n == 1 { // leave room for a last label
+					n--
+				}
+				b := r.Bytes(n)
+				for i := range b {
+					if b[i] == '.' {
+						b[i] = 'y'
+					}
+				}
+				labs = append(labs, string(b))
+				wire = append(wire, byte(n))
+				wire = append(wire, b...)
+				total += n + 1
+				if total == want+1 {
+					break
+				}
+			}
+			wire = append(wire, 0)
+			names = append(names, strings.Join(labs, "."))
+			continue
+		}
 		for j := 1 + r.Rng.Intn(4); j > 0; j-- {
 			n := r.Pick(1, 2, 5, 12, 63)
 			if total+n+1 > 254 { // RFC 1035 2.3.4: a name is at most 253 octets in dotted form
